@@ -301,12 +301,17 @@ theorem pushElems_perm (op : Op) (k : Key) (vs : List Elem) (st : List (Key × E
 theorem Acc_setBlocked {s : State} {c : Conn} {b} (h : Acc s) : Acc (setBlocked s c b) :=
   Acc_congr (by simp) (by simp) (by simp) (by simp) h
 
+theorem Acc_notify (k : Key) (s : State) (h : Acc s) : Acc (notify k s) :=
+  Acc_congr (notify_pushed _ _) (notify_out _ _) (notify_lost _ _) (notify_store _ _) h
+
 theorem Acc_wakeOne (q : Quirks) (s : State) (h : Acc s) : Acc (wakeOne q s) := by
   unfold wakeOne
   split
   · exact h
   · next w rest hw =>
     simp only []
+    split
+    · exact Acc_notify _ _ (Acc_congr (s := s) rfl rfl rfl rfl h)
     split
     · exact Acc_congr (s := s) rfl rfl rfl rfl h
     · next e st' hp =>
@@ -376,9 +381,6 @@ theorem Acc_dataCmd (q : Quirks) (now : Nat) (c cid : Conn) (s : State) (cmd : C
   split
   · exact Acc_dataCore q now c cid s cmd h
   · exact Acc_drain q _ (Acc_dataCore q now c cid s cmd h)
-
-theorem Acc_notify (k : Key) (s : State) (h : Acc s) : Acc (notify k s) :=
-  Acc_congr (notify_pushed _ _) (notify_out _ _) (notify_lost _ _) (notify_store _ _) h
 
 theorem Acc_serveKey (q : Quirks) (k : Key) : ∀ n s, Acc s → Acc (serveKey q k n s) := by
   intro n
